@@ -49,7 +49,8 @@ from . import qltypes
 
 _BYTES_ESCAPE_RE = re.compile(b'[\\\\\'\x00-\x1f\x7e-\xff]')
 _NON_PRINTABLE_RE = re.compile(
-    r'[\u0000-\u0008\u000B\u000C\u000E-\u001F\u007F\u0080-\u009F\n]')
+    r'[\u0000-\u0008\u000B\u000C\u000E-\u001F\u007F\u0080-\u009F\n'
+    r'\u202A-\u202E\u2066-\u2069]')
 _ESCAPES = {
     b'\\': b'\\\\',
     b'\'': b'\\\'',
@@ -711,7 +712,7 @@ class EdgeQLSourceGenerator(codegen.SourceGenerator):
                         return
                 self.write(edgeql_quote.dollar_quote_literal(node.value))
                 return
-            self.write(repr(node.value))
+            self.write(edgeql_quote.quote_literal(node.value))
         else:
             self.write(node.value)
 
